@@ -256,6 +256,47 @@ def run_prio(ctx: Ctx) -> RuleResult:
         if not okt:
             res.finding(init, body[0], 'priority mode %r does not %s the priority of every terminal (dynamic lexers add terminal priorities)'
                         % (mode, 'negate' if mode == 'invert' else 'strip'), construct='prio:%s:terminals' % mode)
+    # the modes update options objects in place: every Rule must own its options object, otherwise an object shared by the
+    # alternatives of one rule is negated once per alternative
+    gc = repo.func('lark.load_grammar:Grammar.compile')
+    rule_calls = [n for n in gc.body_nodes() if isinstance(n, ast.Call) and norm(n.func) == 'Rule' and len(n.args) >= 5]
+    ok = len(rule_calls) == 1
+    if ok:
+        ov = rule_calls[0].args[4]
+        defs_ = [x for x in gc.body_nodes() if isinstance(x, ast.Assign) and any(norm(t) == norm(ov) for t in x.targets)] if isinstance(ov, ast.Name) else []
+
+        def _fresh(e):
+            if isinstance(e, ast.Call) and isinstance(e.func, ast.Name) and e.func.id in ('copy', 'deepcopy', 'RuleOptions'):
+                return True
+            if isinstance(e, ast.BoolOp) and isinstance(e.op, ast.Or):
+                return all(_fresh(v) for v in e.values)
+            return False
+        same_loop = [d for d in defs_ if any(isinstance(a, ast.For) and any(rule_calls[0] is y for y in ast.walk(a)) for a in ancestors(d))]
+        ok = bool(same_loop) and all(_fresh(d.value) for d in same_loop)
+        bad_ = [norm(d) for d in same_loop if not _fresh(d.value)]
+    res.ob('%s %s' % (gc.loc(), gc.qual), 'every compiled Rule gets its own RuleOptions object (copy / constructor on every path)', ok)
+    if not ok:
+        res.finding(gc, rule_calls[0] if rule_calls else gc.node, 'the alternatives of a rule share one RuleOptions object (%s) while priority=\'invert\' '
+                    'negates rule.options.priority in place per Rule: a rule with two alternatives is negated twice and keeps its priority'
+                    % (bad_[:2] if rule_calls and len(rule_calls) == 1 else '?'), construct='prio:options-shared')
+    # helper rules generated by EBNF expansion carry no priority of their own (it would be added once per repetition)
+    ro = [x for x in gc.body_nodes() if isinstance(x, ast.Assign) and len(x.targets) == 1 and norm(x.targets[0]).endswith('.rule_options')
+          and 'ebnf' in norm(x.targets[0])]
+    ok = bool(ro)
+    if ok:
+        v = ro[0].value
+        vdefs = [x.value for x in gc.body_nodes() if isinstance(x, ast.Assign) and isinstance(v, ast.Name)
+                 and any(isinstance(t, ast.Name) and t.id == v.id for t in x.targets)] or [v]
+        for d in vdefs:
+            arms = [d.body, d.orelse] if isinstance(d, ast.IfExp) else [d]
+            for a in arms:
+                good = (isinstance(a, ast.Constant) and a.value is None) or (
+                    isinstance(a, ast.Call) and norm(a.func) == 'RuleOptions' and not any(k.arg == 'priority' for k in a.keywords) and len(a.args) <= 2)
+                ok = ok and good
+    res.ob('%s %s' % (gc.loc(), gc.qual), 'EBNF helper rules get fresh options without a priority', ok)
+    if not ok:
+        res.finding(gc, ro[0] if ro else gc.node, 'the helper rules of +/*/~ expansion inherit the user rule\'s options (and so its priority, '
+                    'once per repetition): the total priority is no longer the sum over the rules applied', construct='prio:helper-options')
     # aggregator vs ordering
     fsv = repo.cls('lark.parsers.earley_forest:ForestSumVisitor')
     so = fsv.methods['visit_symbol_node_out']
